@@ -62,6 +62,10 @@ def gen_case(r, maxops, aligned_only=False):
 
 
 CORPUS = [
+    # sessions that write nothing, before and between sessions that do
+    ({"B": 1024, "T": 1024, "off": 0, "size": 8 * 1024, "seed": 11}, ["REOPEN", "W 2 1 " + "5a" * 1024]),
+    ({"B": 1024, "T": 4096, "off": 0, "size": 8 * 4096, "seed": 12}, ["REOPEN", "REOPEN", "W 3 2 " + "6b" * 2048, "REOPEN", "REOPEN", "WY 100 " + "7c" * 40]),
+    ({"B": 4096, "T": 4096, "off": 4096, "size": 9 * 4096, "seed": 13}, ["REOPEN"]),
     ({"B": 1024, "T": 4096, "off": 512, "size": 512 + 8 * 4096, "seed": 7}, ["W 3 1 " + "ab" * 1024]),
     ({"B": 1024, "T": 1024, "off": 1024, "size": 1024 + 8 * 1024, "seed": 9}, ["WY 3000 " + "cd" * 10]),
     ({"B": 1024, "T": 1024, "off": 2048, "size": 2048 + 8 * 1024, "seed": 3}, ["W 2 1 " + "11" * 1024, "REOPEN", "W 2 1 " + "22" * 1024]),
@@ -178,7 +182,14 @@ def judge(g, ops, r):
     orig = image(g["size"], g["seed"])
     oracle = None
     if any(x.startswith("ERR") for x in r["hrows"]):
-        return None, None      # the recorder refused an operation: nothing claimed
+        # the recorder refused an operation: nothing claimed - unless what it refused is its own undo file (the model's
+        # reopen always succeeds: every session, also one that wrote nothing, leaves a file the next one can append to)
+        for k, x in enumerate(r["hrows"][1:1 + len(ops)]):
+            # (EXT2_ET_UNDO_FILE_CORRUPT only: at a filesystem offset the appending open compares the recorded superblock with
+            #  the device at offset 0 and refuses with EXT2_ET_UNDO_FILE_WRONG - a refused run, about which C12 says nothing)
+            if x.startswith("ERR 2133571500") and ops[k] == "REOPEN" and not any(y.startswith("ERR") for y in r["hrows"][:1 + k]):
+                return "the recorder cannot reopen the undo file its own previous session wrote (operation %d: %s)" % (k, x[:60]), None
+        return None, None
     if r["rc"] != 0:
         oracle = "e2undo exit %s: %s" % (r["rc"], r["out"])
     elif r["undone"][:len(orig)] != orig:
